@@ -24,6 +24,7 @@ EXPLANATION = (
     "pointer, added to the length and copied is one expression.")
 
 RULES = {
+    "C02-N": "no integer on this property's data path is narrowed by an implicit conversion (parameter handed to a narrower parameter, stored in a narrower field, or a narrow field behind a wider accessor)",
     "C02-XC": "(thorough) decision tables of the configuration-independent functions of this property are identical in every build configuration",
     "C02-D1": "findCommandHeader: index from 0 upwards, ends at NULL pattern, first matchCommand hit stores that entry and returns TRUE",
     "C02-D2": "exactly one call-back invocation per dispatched unit; dispatch at most once per unit, only on the found edge",
@@ -501,6 +502,7 @@ def run(ck, fb, tier):
         rule_d2_d5(ck, prog, S)
         rule_d3_d4(ck, prog, S)
         rule_d6(ck, prog, S)
+        K.narrowing_rule(ck, prog, "C02-N", lambda f_: f_.name in ("SCPI_Parse", "SCPI_Input", "processCommand", "findCommandHeader", "SCPI_CmdTag", "SCPI_IsCmd", "SCPI_CommandNumbers", "composeCompoundCommand", "matchCommand", "matchPattern"))
     ck.assume("matchCommand decides the pattern language (C03, not claimed)")
     if tier == "thorough":
         K.cross_config(ck, fb, "C02-XC", ['findCommandHeader', 'processCommand', 'composeCompoundCommand'])
